@@ -32,6 +32,11 @@ def gate_methods(P):
 
 def rules(ctx):
     P, R = ctx.prog, ctx.res
+    ctx.rule('R06.7', "no function writes module-level state (memo / registry): results independent of earlier calls", floor=1)
+    from .C14 import no_module_state as _nms
+    _nms(ctx, 'R06.7')
+    from .C14 import derived_fields as _df
+    _df(ctx, 'R06.7')      # ... nor keeps derived state on a model that some mutator forgets (stale memo)
     E = Effects(P, R)
     E.build()
     ctx.rule('R06.1', "_next_ancilla is not reachable from any gate method", floor=16)
